@@ -187,7 +187,7 @@ func featureCombos(keys ...string) [][]lx.LedgerSpec {
 func init() {
 	registerSeq(seqCheck{
 		id: "C01", quick: 100 * time.Second, thor: 15 * time.Minute, depthQ: 3, depthT: 4,
-		alphabet: coreAlphabet(), restart: false,
+		alphabet: append(coreAlphabet(), retriedOps()...), restart: false,
 		sigs: []string{"conserve:", "read:", "ref:"},
 		check: func(ctx context.Context, s *lx.StepInfo, rep *lx.Report) {
 			lx.CheckConservation(ctx, s.W, s.Ctrl, s.Ref, rep)
